@@ -30,6 +30,11 @@ func runChildJSON(ctxTimeout time.Duration, unpriv bool, env []string, sub strin
 	if unpriv {
 		self = publicSelf()
 	}
+	for _, e := range env {
+		if alt, ok := strings.CutPrefix(e, "VERIF_CHILD_BIN="); ok && alt != "" {
+			self = alt // another build of this harness (cgo-linked), placed next to the public copy
+		}
+	}
 	b, _ := json.Marshal(in)
 	cctx, cancel := context.WithTimeout(context.Background(), ctxTimeout)
 	defer cancel()
